@@ -70,7 +70,8 @@ def check_match(ctx):
         ctx.check(len(somes) == 1, inst, "anchor", body.path, "one `return Some(value)`", None)
         pe = ctx.sites(body, R.call("ptr::eq"), inst, exact=1)
         # generation_matches is a flag-like local computed by the match; Some is returned only when it is true
-        gm = [l for l in range(len(body.locals)) if body.local_name(l) == "generation_matches"]
+        from rules import roles
+        gm = roles.locals_with_role(body, "generation_matches")
         edges = A.pred_edges(body, lambda e: e.k == "local" and e.extra in gm, "true")
         R.guard(ctx, inst, body, somes, edges, "a cached value is returned only when the generation matches")
         # arms: (Some, Some) => ptr::eq ; (Some, None) => false ; (None, _) => true
@@ -239,7 +240,8 @@ def check_bytes(ctx):
             if fn == "RecordCacheEntry::remove":
                 # the write guard is owned by `self` (field `bucket`), the mutation goes through it
                 e = R.recv_expr(body, body.nodes[m])
-                ctx.check(e.has_field("RecordCacheEntry", "bucket"), inst, "HELD", body.path, "the bucket is mutated through the write guard the entry owns", body.where(m), {"expr": e.show()})
+                owned = any(x.k == "field" and (x.extra[0] or "").endswith("RecordCacheEntry") and "RwLockWriteGuard" in (x.ty or "") for x in e.walk())
+                ctx.check(owned, inst, "HELD", body.path, "the bucket is mutated through the write guard the entry owns", body.where(m), {"expr": e.show()})
             else:
                 ctx.check("L_cb" in held, inst, "HELD", body.path, "the bucket is mutated with its lock held", body.where(m), {"held": sorted(held)})
     ctx.check(n_mut >= 5, inst, "anchor", "-", "bucket mutation sites (>= 5, found %d)" % n_mut, None)
